@@ -1,6 +1,9 @@
 package scn
 
-import "encoding/json"
+import (
+	"encoding/json"
+	"strings"
+)
 
 // Yield kinds that may be scheduling points in goroutine mode (bit mask).
 const (
@@ -28,6 +31,7 @@ type Config struct {
 	Must        bool   `json:"must,omitempty"`         // compile through MustCompile instead of Compile
 	ColdProcess bool   `json:"cold_process,omitempty"` // goroutine mode: executed in a pristine child process, and the reference outcomes are computed AFTER the concurrent phase, so that the tasks meet a package nobody has warmed up (lazily initialised tables)
 	Pristine    bool   `json:"pristine,omitempty"`     // also compute every reference outcome in a pristine child process
+	LooseMoveTo bool   `json:"loose_moveto,omitempty"` // the navigators' MoveTo does not check that the other navigator is on the same document: it adopts the other's document and position
 }
 
 // ExprSpec is one expression of a scenario.
@@ -117,6 +121,16 @@ func genDocs(r *Rng, maxNodes int) []DocSpec {
 			if r.Chance(1, 8) {
 				ds[i].ShallowValue = true
 			}
+			// namespace declarations show up as attributes (as in xmlquery)
+			if r.Chance(1, 4) {
+				DeclareNamespaces(&ds[i])
+			}
+			// size stratum: one very long text (4-9 KB), different from document to document
+			if r.Chance(1, 24) {
+				els := elements(&ds[i])
+				e := els[r.Intn(len(els))]
+				e.C = append(e.C, &NodeSpec{K: "t", V: LongText(r)})
+			}
 		}
 	}()
 	for i := 0; i < n; i++ {
@@ -132,8 +146,116 @@ func genDocs(r *Rng, maxNodes int) []DocSpec {
 	return ds
 }
 
+// DeclareNamespaces gives every element that has a prefix and a namespace an
+// xmlns:<prefix> attribute declaring it.
+func DeclareNamespaces(d *DocSpec) {
+	for _, e := range elements(d) {
+		i := strings.IndexByte(e.N, ':')
+		if i < 0 || e.NS == "" {
+			continue
+		}
+		name := "xmlns:" + e.N[:i]
+		have := false
+		for _, a := range e.A {
+			have = have || a[0] == name
+		}
+		if !have {
+			e.A = append([][2]string{{name, e.NS}}, e.A...)
+		}
+	}
+}
+
+// LongText draws a text of 4200-9000 bytes made of words and runs of blanks.
+func LongText(r *Rng) string {
+	words := []string{"alpha", "bravo", "gamma", "delta", "a", "b", "ab", "1", "é", "中"}
+	var b strings.Builder
+	n := r.Range(4200, 9000)
+	for b.Len() < n {
+		b.WriteString(words[r.Intn(len(words))])
+		b.WriteString([]string{" ", "  ", "\n ", " "}[r.Intn(4)])
+	}
+	return b.String()
+}
+
+// LongPattern draws a valid pattern of more than 256 bytes (300-700): lengths
+// at which per-pattern fast paths and fixed-size buffers end.
+func LongPattern(r *Rng) string {
+	base := r.Pick([]string{"a", "b", "ab", "[ab]", "(a)", "a+", "b?"})
+	alt := r.Pick([]string{"c", "d", "cd", "[cd]", "x"})
+	var b strings.Builder
+	n := r.Range(300, 700)
+	for b.Len() < n {
+		b.WriteString("(?:" + alt + string(rune('0'+b.Len()%10)) + ")?")
+	}
+	b.WriteString(base)
+	return b.String()
+}
+
+// namespaceRun turns a scenario into one in which namespaces matter: two
+// documents with elements in both namespaces, each navigated through either
+// navigator implementation, each possibly declaring its prefixes with xmlns:*
+// attributes (the two documents bind urn:x to different prefixes), and a few
+// plain prefixed name tests among the expressions.
+func namespaceRun(r *Rng, s *Scenario, ok CompileOK, flat bool) {
+	for len(s.Docs) < 2 {
+		s.Docs = append(s.Docs, GenDoc(r, 12))
+	}
+	for di := 0; di < 2; di++ {
+		top := s.Docs[di].C[len(s.Docs[di].C)-1]
+		other := []string{"z:a", "y:a"}[di]
+		top.C = append(top.C, &NodeSpec{K: "e", N: "x:a", NS: "urn:x", A: [][2]string{{"id", "1"}}}, &NodeSpec{K: "e", N: "y:b", NS: "urn:y"},
+			&NodeSpec{K: "e", N: "x:a", NS: "urn:y"}, &NodeSpec{K: "e", N: other, NS: "urn:x", A: [][2]string{{"id", "2"}}})
+		s.Docs[di].NoNS = r.Chance(1, 2)
+		if r.Chance(2, 3) {
+			DeclareNamespaces(&s.Docs[di])
+		}
+	}
+	for k := r.Range(1, 2); k > 0; k-- {
+		if flat {
+			t := r.Pick([]string{"x:a", "y:b"})
+			e := &E{Op: "path", S: "//", Kids: []*E{{Op: "step", S: "child", T: t, Abbr: true}}}
+			if r.Chance(1, 2) {
+				e = &E{Op: "path", S: "/", Kids: []*E{{Op: "step", S: "child", T: "*", Abbr: true}, {Op: "step", S: "child", T: t, Abbr: true, Sep: "/"}}}
+			}
+			if ok == nil || ok(e.String()) {
+				s.Exprs = append(s.Exprs, ExprSpec{Text: e.String(), AST: e, Flat: true, NS: true})
+			}
+			continue
+		}
+		t := r.Pick([]string{"//x:a", "//y:b", "count(//x:a)", "//x:a/@id", "//*[self::x:a]", "//x:a | //y:b"})
+		if ok == nil || ok(t) {
+			s.Exprs = append(s.Exprs, ExprSpec{Text: t})
+		}
+	}
+}
+
+// longValueRun: every document gets a text of several kilobytes below its top
+// element and the expressions include string functions applied to the whole
+// document's string value (sizes at which fixed buffers and "large value"
+// paths begin).
+func longValueRun(r *Rng, s *Scenario, ok CompileOK) {
+	for len(s.Docs) < 2 {
+		s.Docs = append(s.Docs, GenDoc(r, 8))
+	}
+	for i := range s.Docs {
+		top := s.Docs[i].C[len(s.Docs[i].C)-1]
+		top.C = append(top.C, &NodeSpec{K: "t", V: LongText(r)})
+		s.Docs[i].ShallowValue = false
+	}
+	texts := []string{"normalize-space(/*)", "normalize-space(/)", "string-length(normalize-space(/*))", "lower-case(/*)", "translate(/*, 'ab', 'ba')",
+		"substring(/*, 4000, 200)", "substring-after(/*, 'gamma')", "substring-before(/*, 'delta  alpha')", "contains(/*, 'delta  alpha')", "concat(/*, 'x', /*)",
+		"string-join(//text(), '-')", "replace(/*, 'a+', 'x')", "matches(/*, 'gamma +delta')", "string(/*)", "//*[normalize-space() = normalize-space(/*)]",
+		"ends-with(/*, 'a ')", "starts-with(/*, 'alpha')", "string-length(/*)", "number(/*)", "//*[contains(., 'bravo alpha')]"}
+	for k := r.Range(2, 4); k > 0; k-- {
+		t := r.Pick(texts)
+		if ok == nil || ok(t) {
+			s.Exprs = append(s.Exprs, ExprSpec{Text: t})
+		}
+	}
+}
+
 func baseCfg(r *Rng) Config {
-	c := Config{CacheCap: -1, PoolMode: r.Intn(2), Faults: !r.Chance(1, 4), NS: r.Chance(1, 5), NSSwap: r.Chance(1, 2), Pristine: r.Chance(1, 100), Must: r.Chance(1, 8)}
+	c := Config{CacheCap: -1, PoolMode: r.Intn(2), Faults: !r.Chance(1, 4), NS: r.Chance(1, 5), NSSwap: r.Chance(1, 2), Pristine: r.Chance(1, 100), Must: r.Chance(1, 8), LooseMoveTo: r.Chance(1, 6)}
 	if r.Chance(1, 3) {
 		c.CacheCap = []int{0, 1, 2, 3, 5, 8, 9}[r.Intn(7)]
 	}
@@ -150,7 +272,7 @@ func genExprs(g *Gen, n int, ok CompileOK, mk func() (*E, bool, bool)) []ExprSpe
 	for tries := 0; len(out) < n && tries < n*12; tries++ {
 		e, flat, ns := mk()
 		t := e.String()
-		if len(t) > 400 {
+		if len(t) > 400 && !g.LongTexts {
 			continue
 		}
 		if ok != nil && !ok(t) {
@@ -183,7 +305,12 @@ func GenC04(seed, run uint64, ok CompileOK) *Scenario {
 	if r.Chance(1, 4) {
 		focus = r.Pick(FocusFuncs) // swarm: a run about one function fed context-dependent arguments
 	}
-	if focus != "" && r.Chance(2, 3) {
+	if (focus == "sum" || focus == "number") && r.Chance(2, 3) {
+		saved := Values
+		Values = NumValues
+		s.Docs = genDocs(r, r.Range(4, 26))
+		Values = saved
+	} else if focus != "" && r.Chance(2, 3) {
 		// its documents use the tight value alphabet, so that the arguments the
 		// function sees on different context nodes collide and concatenate into each other
 		saved := Values
@@ -200,7 +327,19 @@ func GenC04(seed, run uint64, ok CompileOK) *Scenario {
 	g.UseDocs(s.Docs)
 	g.StackPos = true
 	g.FocusFn = focus
+	nsRun := s.Cfg.NS && r.Chance(1, 2)
+	if nsRun {
+		for len(s.Docs) < 2 {
+			s.Docs = append(s.Docs, GenDoc(r, 12))
+		}
+	}
 	s.Exprs = genExprs(g, r.Range(1, 5), ok, func() (*E, bool, bool) { return g.Top(), false, false })
+	if nsRun {
+		namespaceRun(r, s, ok, false)
+	}
+	if r.Chance(1, 20) {
+		longValueRun(r, s, ok)
+	}
 	nsteps := r.Range(6, 60)
 	w := []int{r.Range(2, 8), r.Range(2, 10), r.Range(4, 14), r.Range(0, 3), r.Range(1, 5), 0, 0}
 	if focus != "" {
@@ -214,6 +353,9 @@ func GenC04(seed, run uint64, ok CompileOK) *Scenario {
 	for i := 0; i < nsteps; i++ {
 		st := Step{E: r.Intn(len(s.Exprs)), D: r.Intn(len(s.Docs)), H: r.Intn(1000)}
 		st.C = ctxFor(r, s.Docs, st.D)
+		if nsRun && r.Chance(2, 3) {
+			st.D, st.C = r.Intn(2), 0
+		}
 		switch r.Weighted(w) {
 		case 0:
 			st.Op = "select"
@@ -243,7 +385,14 @@ func GenC04(seed, run uint64, ok CompileOK) *Scenario {
 func GenC12(seed, run uint64, ok CompileOK) *Scenario {
 	r := NewRng(seed, HashString("C12"), run)
 	s := &Scenario{Prop: "C12", Mode: "H", Seed: seed, Run: run, Cfg: Config{CacheCap: -1, PoolMode: r.Intn(2), Faults: true, Pristine: r.Chance(1, 100)}}
+	s.Cfg.NS, s.Cfg.NSSwap, s.Cfg.LooseMoveTo = r.Chance(1, 5), r.Chance(1, 2), r.Chance(1, 6)
 	s.Docs = genDocs(r, r.Range(6, 40))
+	nsRun := s.Cfg.NS && r.Chance(1, 2)
+	if nsRun {
+		for len(s.Docs) < 2 {
+			s.Docs = append(s.Docs, GenDoc(r, 12))
+		}
+	}
 	g := NewGen(r)
 	g.UseDocs(s.Docs)
 	g.NoRegex = true
@@ -253,6 +402,9 @@ func GenC12(seed, run uint64, ok CompileOK) *Scenario {
 		}
 		return g.NodeSet(g.MaxDepth), false, true
 	})
+	if nsRun {
+		namespaceRun(r, s, ok, true)
+	}
 	nsteps := r.Range(6, 50)
 	w := []int{r.Range(2, 6), r.Range(2, 6), r.Range(6, 16), r.Range(1, 5), r.Range(1, 5), r.Range(1, 4), r.Range(0, 2), r.Range(1, 4)}
 	for i := 0; i < nsteps; i++ {
@@ -479,6 +631,9 @@ func genKeys(r *Rng) []string {
 	var keys []string
 	for len(keys) < n {
 		k := GenRegex(r)
+		if r.Chance(1, 40) {
+			k = LongPattern(r)
+		}
 		if !seen[k] {
 			seen[k] = true
 			keys = append(keys, k)
@@ -518,10 +673,43 @@ func GenC16H(seed, run uint64) *Scenario {
 		if r.Chance(2, 3) {
 			e.C = append(e.C, &NodeSpec{K: "t", V: genSubject(r)}) // a string value for self::name subjects
 		}
+		// operands for expressions evaluated from one element after the other
+		// ("pernode" steps): a prefixed attribute sharing k's local name, a
+		// pattern attribute, text that only descendants carry
+		if r.Chance(1, 3) {
+			xk := [2]string{"x:k", genSubject(r)}
+			if r.Chance(1, 2) {
+				e.A = append([][2]string{xk}, e.A...)
+			} else {
+				e.A = append(e.A, xk)
+			}
+		}
+		if r.Chance(1, 2) {
+			e.A = append(e.A, [2]string{"p", keys[r.Intn(len(keys))]})
+		}
+		if r.Chance(1, 3) {
+			w := &NodeSpec{K: "e", N: "w", C: []*NodeSpec{{K: "t", V: genSubject(r)}}}
+			if r.Chance(1, 2) {
+				w = &NodeSpec{K: "e", N: "v", C: []*NodeSpec{w}}
+			}
+			e.C = append(e.C, w)
+		}
 		top.C = append(top.C, e)
 	}
 	doc.C = []*NodeSpec{top}
+	if r.Chance(1, 6) {
+		doc.ShallowValue = true
+	}
 	s.Docs = []DocSpec{doc}
+	for n := r.Weighted([]int{2, 3, 2, 1}); n > 0; n-- {
+		at := r.Intn(len(s.Steps) + 1)
+		k := keys[r.Intn(len(keys))]
+		st := Step{Op: "pernode", N: r.Intn(5), K: k, R: genRepl(r, countGroups(k)), C: r.Intn(2)}
+		if st.N == 2 && r.Chance(2, 3) {
+			st.R = r.Pick([]string{"$1st", "<$1>", "$1$2", "x$1", "$2-$1"}) // names a group: only some of the nodes' patterns have it
+		}
+		s.Steps = append(s.Steps[:at:at], append([]Step{st}, s.Steps[at:]...)...)
+	}
 	for n := r.Weighted([]int{2, 3, 2}); n > 0; n-- {
 		at := r.Intn(len(s.Steps) + 1)
 		st := Step{Op: "matchnodes", N: r.Intn(5), K: keys[r.Intn(len(keys))]}
@@ -607,11 +795,16 @@ func GenC05(seed, run uint64, ok CompileOK) *Scenario {
 	g.UseDocs(s.Docs)
 	g.StackPos = true
 	regexRun := r.Chance(1, 4)
+	g.LongTexts = regexRun
+	longPats := regexRun && r.Chance(1, 5) // size stratum: patterns of 300-700 bytes
 	if regexRun {
 		// swarm: a run about concurrent use of the regular-expression functions:
 		// several expressions, each built around matches()/replace() with its own pattern
 		s.Exprs = genExprs(g, r.Range(2, 4), ok, func() (*E, bool, bool) {
 			pat := &E{Op: "str", S: r.Pick(g.Patterns[:11])}
+			if longPats {
+				pat.S = LongPattern(r)
+			}
 			subj := g.strArg(1)
 			if r.Chance(1, 2) {
 				subj = &E{Op: "str", S: r.Pick([]string{"a", "ab", "abc", "b", "ba", "aab", "1", ""})}
@@ -657,28 +850,22 @@ func GenC05(seed, run uint64, ok CompileOK) *Scenario {
 			}
 		}
 	}
+	longRun := !compileStorm && r.Chance(1, 10)
+	if longRun {
+		n0 := len(s.Exprs)
+		longValueRun(r, s, ok)
+		if len(s.Exprs) > n0 && r.Chance(2, 3) {
+			s.Exprs = s.Exprs[n0:] // only those
+		}
+	}
 	mixedNavs := false
 	if s.Cfg.NS && r.Chance(1, 2) {
 		// namespaces matter in this run: two documents with elements in both
 		// namespaces, navigated through the two navigator implementations, and a
 		// few plain prefixed name tests among the expressions
-		for len(s.Docs) < 2 {
-			s.Docs = append(s.Docs, GenDoc(r, 12))
-		}
-		for di := 0; di < 2; di++ {
-			top := s.Docs[di].C[len(s.Docs[di].C)-1]
-			top.C = append(top.C, &NodeSpec{K: "e", N: "x:a", NS: "urn:x", A: [][2]string{{"id", "1"}}}, &NodeSpec{K: "e", N: "y:b", NS: "urn:y"},
-				&NodeSpec{K: "e", N: "x:a", NS: "urn:y"}, &NodeSpec{K: "e", N: "z:a", NS: "urn:x"})
-		}
-		s.Docs[0].NoNS, s.Docs[1].NoNS = false, true
-		if r.Chance(1, 2) {
-			s.Docs[0].NoNS, s.Docs[1].NoNS = true, false
-		}
-		for k := r.Range(1, 2); k > 0; k-- {
-			t := r.Pick([]string{"//x:a", "//y:b", "count(//x:a)", "//x:a/@id", "//*[self::x:a]", "//x:a | //y:b"})
-			if ok == nil || ok(t) {
-				s.Exprs = append(s.Exprs, ExprSpec{Text: t})
-			}
+		namespaceRun(r, s, ok, false)
+		if !s.Docs[0].NoNS && !s.Docs[1].NoNS && r.Chance(2, 3) {
+			s.Docs[r.Intn(2)].NoNS = true
 		}
 		mixedNavs = true
 	}
@@ -700,6 +887,10 @@ func GenC05(seed, run uint64, ok CompileOK) *Scenario {
 			if mixedNavs {
 				st.E = r.Intn(len(s.Exprs))
 				st.D, st.C = r.Intn(2), 0
+			}
+			if longRun {
+				st.E = r.Intn(len(s.Exprs))
+				st.D, st.C = r.Intn(len(s.Docs)), 0
 			}
 			if r.Chance(1, 4) {
 				st.D = r.Intn(len(s.Docs))
